@@ -144,27 +144,17 @@ def up_json(base):
     if r["exit"] != 0:
         return None, r
     try:
-        return json.loads(r["stdout"][r["stdout"].index("\n{"):]), r
+        return proc.json_document(r["stdout"]), r
     except Exception:
         return None, r
 
 
 def _json_tail(text):
     """explain prints one or more JSON documents; return the last object."""
-    i = text.rfind("\n{")
-    if text.startswith("{"):
-        i = 0 if i < 0 else i
-    if i < 0:
-        return None
     try:
-        return json.loads(text[i:])
+        return proc.json_document(text, last=True)
     except Exception:
-        # several objects printed one after another: take the first complete one
-        dec = json.JSONDecoder()
-        try:
-            return dec.raw_decode(text[text.index("{"):])[0]
-        except Exception:
-            return None
+        return None
 
 
 def check_case(case):
